@@ -228,6 +228,39 @@ theorem history_dependent_counting_factory_witness :
   revert this
   decide +kernel
 
+/-! ## evaluator dispatch and module-level state -/
+
+/-- the dispatch of the code keeps no module-level state: what one evaluator is answered never depends on which
+    evaluators (of the same or other classes, with other leaves) were asked before -/
+theorem history_independent_dispatch (h : List (Ev × Nat)) (q : Ev × Nat) :
+    lastOut dispatchStep [] (h ++ [q]) = lastOut dispatchStep [] [q] :=
+  history_independent_of_inv dispatchStep (fun _ => True) [] trivial (fun _ _ _ => trivial) (fun _ _ _ => rfl) h q
+
+theorem dispatch_leaves_cache_empty (h : List (Ev × Nat)) : (run dispatchStep [] h).1 = [] :=
+  inv_run dispatchStep (fun c => c = []) (fun _ _ hc => hc) [] rfl h
+
+/-- remembering the answer per evaluator class WOULD make the outcome depend on other objects: two instances of the
+    same pass-through wrapper class (7) around a selector that takes no prev_gains (class 1) and around a distributor
+    that does (class 2, keyword 0): asked second, the latter is answered `false` -/
+theorem history_dependent_dispatch_cached_witness :
+    ¬ (∀ (h : List (Ev × Nat)) (q : Ev × Nat),
+        lastOut dispatchStepCached [] (h ++ [q]) = lastOut dispatchStepCached [] [q]) := by
+  intro hall
+  have := hall [(.wrap 7 (.leaf 1 []), 0)] (.wrap 7 (.leaf 2 [0, 1]), 0)
+  revert this
+  decide +kernel
+
+/-- …and it would be sound exactly where the class determines the answer (leaf classes): under that hypothesis the
+    cached dispatch answers like the uncached one after every history -/
+theorem dispatch_cached_sound_if_class_determines
+    (H : ∀ (e e' : Ev) (k : Nat), e.cls = e'.cls → acceptsKw e k = acceptsKw e' k)
+    (h : List (Ev × Nat)) (q : Ev × Nat) :
+    lastOut dispatchStepCached [] (h ++ [q]) = some (acceptsKw q.1 q.2) := by
+  rw [lastOut_append]
+  have hinv := inv_run dispatchStepCached KwCacheOK (fun c q hc => dispatchStepCached_inv H c q hc) []
+    (by intro p hp; simp at hp) h
+  exact congrArg some (dispatchStepCached_out _ q hinv)
+
 /-! ## several objects in one history -/
 
 /-- a PAV evaluator and a Borda positional converter used alternately in one history (any interleaving): every call
